@@ -104,7 +104,11 @@ func FuzzC35(f *testing.F) {
 		}
 		for i := range fs {
 			if fs[i].Bad != "" {
-				rec.Fail(t, "bad-server-frame", w, "FuzzC35: server sent a malformed frame: %s (%v)", fs[i].Bad, fs[i])
+				key := "bad-server-frame"
+				if strings.Contains(fs[i].Bad, "dynamic table size update MUST occur at the beginning") {
+					key += "/hpack-size-update-mid-block"
+				}
+				rec.Fail(t, key, w, "FuzzC35: server sent a malformed frame: %s (%v)", fs[i].Bad, fs[i])
 				return
 			}
 		}
